@@ -478,6 +478,9 @@ func (s *server) ReadRows(req *btpb.ReadRowsRequest, stream btpb.Bigtable_ReadRo
 	if err := validateRowRanges(req); err != nil {
 		return err
 	}
+	if err := validateFilter(req.Filter); err != nil {
+		return err
+	}
 
 	srs := []simpleRange{{}} // infinite range unless specified
 	if len(req.GetRows().GetRowKeys())+len(req.GetRows().GetRowRanges()) > 0 {
@@ -987,6 +990,9 @@ func (s *server) CheckAndMutateRow(ctx context.Context, req *btpb.CheckAndMutate
 	s.mu.Unlock()
 	if !ok {
 		return nil, status.Errorf(codes.NotFound, "table %q not found", req.TableName)
+	}
+	if err := validateFilter(req.PredicateFilter); err != nil {
+		return nil, err
 	}
 	res := &btpb.CheckAndMutateRowResponse{}
 
